@@ -46,7 +46,7 @@ ASSUMPTIONS = [
     "the motion (cache invalidation is C11's subject) - the oracle reads occupancies from a deep copy with cold caches",
     "3-D vertices (z) are outside the property (planar rigid motion)",
 ]
-REQUIRED_BUCKETS = ["area", "history", "light/shape", "state/other", "angle/zero", "angle/tiny", "angle/small<=0.05", "angle/0.05-edge", "angle/quarter-turn", "angle/full-turn",
+REQUIRED_BUCKETS = ["body/asymmetric-polygon", "tie/place", "area", "history", "light/shape", "state/other", "angle/zero", "angle/tiny", "angle/small<=0.05", "angle/0.05-edge", "angle/quarter-turn", "angle/full-turn",
                     "angle/generic", "angle/out-of-range", "t/zero", "t/dyadic", "t/float", "mode/whole", "mode/network",
                     "mode/parts", "probe", "obst/static", "obst/dynamic-traj", "obst/dynamic-set", "obst/phantom", "obst/env",
                     "state/PMState", "state/uncertain-pos", "state/uncertain-ori", "lanelet/stop-line", "sign", "light",
@@ -157,13 +157,44 @@ def gen_shape(r, depth=0, center=None, kinds=("rect", "circ", "poly", "group"), 
     return {"k": "group", "s": [gen_shape(r, depth + 1, None, kinds, a) for _ in range(r.randint(1, 3))]}
 
 
+def polygon_centroid(vs):
+    """area centroid of a simple polygon (shoelace)."""
+    a2 = cx = cy = 0.0
+    for (x0, y0), (x1, y1) in zip(vs, vs[1:] + vs[:1]):
+        w = x0 * y1 - x1 * y0
+        a2 += w
+        cx += (x0 + x1) * w
+        cy += (y0 + y1) * w
+    return cx / (3 * a2), cy / (3 * a2)
+
+
+def body_asymmetry(spec):
+    """distance between the bounding-box centre and the centroid of a polygon body shape (0 for the other kinds)."""
+    if spec.get("k") != "poly":
+        return 0.0
+    xs, ys = [v[0] for v in spec["v"]], [v[1] for v in spec["v"]]
+    cx, cy = polygon_centroid([list(v) for v in spec["v"]][:-1] if spec["v"][0] == spec["v"][-1] else [list(v) for v in spec["v"]])
+    return math.hypot((min(xs) + max(xs)) / 2 - cx, (min(ys) + max(ys)) / 2 - cy)
+
+
 def gen_body_shape(r, allow_group=False):
     """Obstacle shape in the body frame, centred at the origin."""
-    k = r.choice(["rect", "rect", "circ", "poly"])
+    k = r.choice(["rect", "rect", "circ", "poly", "apoly"])
     if k == "rect":
         return {"k": "rect", "l": r.choice([4.5, r.uniform(0.5, 12)]), "w": r.choice([1.8, r.uniform(0.5, 3)]), "c": [0.0, 0.0], "th": 0.0}
     if k == "circ":
         return {"k": "circ", "r": r.uniform(0.2, 3), "c": [0.0, 0.0]}
+    if k == "apoly":
+        # an arbitrary (in general asymmetric) polygon, e.g. a triangle, shifted so that its CENTROID is the local origin
+        # (the convention of obstacle shapes); its bounding-box centre is then somewhere else
+        n = r.choice([3, 3, 4, 5, 6])
+        angs = [2 * PI * i / n + r.uniform(-0.3, 0.3) * 2 * PI / n for i in range(n)]
+        vs = [[rad * math.cos(x), rad * math.sin(x)] for x in angs for rad in [r.uniform(0.6, 4.0)]]
+        cx, cy = polygon_centroid(vs)
+        vs = [[x - cx, y - cy] for x, y in vs]
+        if r.random() < 0.5:
+            vs.reverse()
+        return {"k": "poly", "v": vs}
     p, q = [r.uniform(0.5, 4), r.uniform(0.2, 2)], [r.uniform(-3, -0.5), r.uniform(0.5, 2)]
     return {"k": "poly", "v": [p, q, [-p[0], -p[1]], [-q[0], -q[1]]]}     # centrally symmetric: centroid at the origin
 
@@ -1398,6 +1429,8 @@ def tag_case(ctx, case):
         if k == "dynamic":
             k = "dynamic-traj" if "traj" in o else "dynamic-set" if "occ" in o else "dynamic-none"
         ctx.tag("obst/" + k)
+        if "shape" in o and body_asymmetry(o["shape"]) > 0.05 and case["a"] != 0:
+            ctx.tag("body/asymmetric-polygon")
         if "st" in o:
             tag_state(o["st"])
         for st in o.get("traj", []):
@@ -1424,6 +1457,33 @@ def sub_case(case, site):
     return case
 
 
+def place_ties(ctx, case, sc, S, tau, when):
+    """Correspondence for the occupancy of polygon-shaped obstacles (Polygon.rotate_translate_local via
+    occupancy_shape_from_state): occupancy_at_time(initial time step) vs CR.Rigid.placePolygon on the body polygon's ring, its
+    centroid, the state's position and (cos, sin) of its orientation."""
+    import numpy as np
+    from commonroad.geometry.shape import Polygon
+    from commonroad.scenario.obstacle import DynamicObstacle, StaticObstacle
+    for o in sorted(sc.obstacles, key=lambda x: x.obstacle_id):
+        if not isinstance(o, (StaticObstacle, DynamicObstacle)) or not isinstance(o.obstacle_shape, Polygon):
+            continue
+        st = o.initial_state
+        if st.is_uncertain_position or st.is_uncertain_orientation or not isinstance(st.orientation, (int, float, np.number)):
+            continue
+        occ = o.occupancy_at_time(st.time_step)
+        if occ is None or not isinstance(occ.shape, Polygon):
+            continue
+        th = float(st.orientation)
+        args = {"ct": rat(math.cos(th)), "st": rat(math.sin(th)), "o": to_rat(_p(o.obstacle_shape.center)),
+                "pos": to_rat(_p(st.position)), "ring": to_rat(_ps(o.obstacle_shape.shapely_object.exterior.coords))}
+        model = ctx.driver.ask("C05", "place", args)
+        impl = _ps(occ.shape.vertices)
+        imp = {"ok": Cmp(S, tau, 256).tree(impl, model.get("ok"))} if "ok" in model else {"ok": to_rat(impl)}
+        ctx.tag("tie/place")
+        ctx.compare({"a": case["a"], "t": case["t"], "when": when, "obstacle": o.obstacle_id, "place": args}, imp, model,
+                    "occupancy_at_time of a polygon-shaped obstacle vs CR.Rigid.placePolygon")
+
+
 def run_case(ctx, case):
     import numpy as np
     ctx.case(case)
@@ -1447,6 +1507,7 @@ def run_case(ctx, case):
     inadm = [lo["kind"] == "state" and bool(lo["v"].get("pos_other") or lo["v"].get("ori_other")) for lo in case["loose"]]
     dbefore = derived_world(sc, pps, [None if x else o for x, o in zip(inadm, loose_objs)], case) if valid else None
     S = case_scale(case, before)
+    place_ties(ctx, case, sc, S, tau, "before")
 
     # ---- the motion
     werr = apply_world(sc, pps, t, a, case["mode"])
@@ -1520,6 +1581,8 @@ def run_case(ctx, case):
             orc.consequences(f"{lo['kind']}.translate_rotate", strip(b), strip(x), S)
             orc.bodies(f"{lo['kind']}.translate_rotate", b, x)
             orc.areas_and_history(b, x)
+    if werr is None:
+        place_ties(ctx, case, sc, S, tau, "after")
     if werr is None and all(e is None or (lo["kind"] == "state" and (lo["v"].get("pos_other") or lo["v"].get("ori_other")))
                             for lo, e in zip(case["loose"], lerrs)):
         dafter = derived_world(sc, pps, moved_loose, case)
